@@ -307,11 +307,16 @@ def zigzag(n, bits):
     return ((n << 1) ^ (n >> (bits - 1))) & ((1 << bits) - 1)
 
 
-def tcomp(tree, lib=None):
+def tcomp(tree, lib=None, liar=None):
+    """liar = a PRNG: i16 / i32 / i64 field headers may name another member of that family (all three are one
+    zigzag varint on the wire, so the stream stays aligned); generated Read never compares the header type of a
+    declared field and thrift.Skip skips one varint for each of them"""
     out = bytearray()
     last = 0
     for fid, wt, x in tree["s"]:
         ct = (1 if x else 2) if wt == 2 else CT[wt]
+        if liar is not None and wt in (6, 8, 10) and liar.random() < 0.5:
+            ct = liar.choice([4, 5, 6])
         d = fid - last
         if lib is not None and d < 0 and 0 < d % 65536 <= 15:
             out.append(((d % 65536) << 4) | ct)      # the reader adds the delta in int16: 32767 + 1 = -32768
@@ -321,13 +326,13 @@ def tcomp(tree, lib=None):
             out.append(ct)
             out += uvarint(zigzag(fid, 32), lib)
         if wt != 2:
-            out += tcomp_value(wt, x, lib)
+            out += tcomp_value(wt, x, lib, liar)
         last = fid
     out.append((lib.randrange(1, 16) << 4) if lib is not None and lib.random() < 0.2 else 0)
     return bytes(out)
 
 
-def tcomp_value(wt, x, lib=None):
+def tcomp_value(wt, x, lib=None, liar=None):
     if wt == 2:
         return b"\x01" if x else b"\x02"
     if wt == 3:
@@ -342,7 +347,7 @@ def tcomp_value(wt, x, lib=None):
         b = bytes.fromhex(x["bin"] if isinstance(x, dict) else x)
         return uvarint(len(b), lib) + b
     if wt == 12:
-        return tcomp(x, lib)
+        return tcomp(x, lib, liar)
     if wt == 16:
         return bytes.fromhex(x)
     if wt in (14, 15):
@@ -352,13 +357,13 @@ def tcomp_value(wt, x, lib=None):
             hdr = bytes([(n << 4) | CT[et]])
         else:
             hdr = bytes([0xF0 | CT[et]]) + uvarint(n, lib)
-        return hdr + b"".join(tcomp_value(et, v, lib) for v in vals)
+        return hdr + b"".join(tcomp_value(et, v, lib, liar) for v in vals)
     if wt == 13:
         kt, vt, vals = x["m"]
         if not vals:
             return b"\x00"
         return uvarint(len(vals), lib) + bytes([(CT[kt] << 4) | CT[vt]]) + \
-            b"".join(tcomp_value(kt, k, lib) + tcomp_value(vt, v, lib) for k, v in vals)
+            b"".join(tcomp_value(kt, k, lib, liar) + tcomp_value(vt, v, lib, liar) for k, v in vals)
     raise ValueError(wt)
 
 
@@ -841,6 +846,12 @@ def _run_program(ctx, prog, lb, gen_opts, n_values, stats, judge_cases, judge_me
                 pr = rng.choice(["compact", "json"])
                 breq.append({"op": "build", "proto": pr, "tree": tr})
                 bmeta.append((i, tr, info, pr, len(rreqs) - 2))
+        if rng.random() < 0.3:
+            # header types that lie within the varint family: no oracle claim (not a conforming encoding), the
+            # model says what the generated Read makes of it
+            cb = tcomp(tree, None, rng)
+            rreqs.append({"op": "read", "type": k, "proto": "compact", "bytes": cb.hex()})
+            rmeta.append((i, tree, {"mutation": "liar", "writer": "py-liar"}, cb, "compact"))
         if rng.random() < 0.3:
             b = tbin(tree)
             cut = b[:rng.randrange(0, len(b))]
